@@ -96,8 +96,14 @@ def _one(args):
         e = Engine(spec, t, mutate=make_mutator(desc))
         e.run()
         obls = [o for o in e.obls if o.kind != "canary" and not o.kind.startswith("cover.")]
-        results = SV.solve_all(obls, budget, jobs=2)
-        bad = [(o.name, r["result"]) for o, r in zip(obls, results) if r["result"] != "unsat"]
+        obls.sort(key=lambda o: (o.kind == "frame", o.kind.startswith("call.pre")))
+        bad = []
+        for i in range(0, len(obls), 6):
+            chunk = obls[i:i + 6]
+            results = SV.solve_all(chunk, budget, jobs=3)
+            bad = [(o.name, r["result"]) for o, r in zip(chunk, results) if r["result"] != "unsat"]
+            if bad:
+                break
         if bad:
             return {"id": mid, "target": target_ref, "status": "killed", "by": bad[0][0], "how": bad[0][1]}
         return {"id": mid, "target": target_ref, "status": "survived"}
